@@ -90,7 +90,7 @@ def main(tier, seed, only=None):
     universe = rule_universe()
     fired = {}
     tot = {"specs": 0, "states": 0, "oog": 0, "raised": 0, "budget": 0, "with_rules": 0}
-    blocks = list(families.rule_family(level=1 if tier == "quick" else 2)) + families.vocabulary_family() + families.cse_family()
+    blocks = list(families.rule_family(level=1 if tier == "quick" else 2)) + families.vocabulary_family() + families.cse_family() + families.sibling_family()
     if only:
         blocks = [b for b in blocks if only in B.to_text(b)]
     cfgs = cfg_list(tier)
